@@ -81,6 +81,9 @@ def loops_of(fnode):
         out.append(c)
       if isinstance(c, ast.Expr) and isinstance(c.value, ast.ListComp):
         out.append(c.value)       # a comprehension used as a statement is a loop
+      if (isinstance(c, ast.Expr) and isinstance(c.value, ast.Call) and isinstance(c.value.func, ast.Attribute) and c.value.func.attr == 'update'
+          and len(c.value.args) == 1 and isinstance(c.value.args[0], ast.GeneratorExp)):
+        out.append(c.value.args[0])   # d.update(<generator of pairs>) is a loop of item assignments
       rec(c)
   rec(fnode)
   return out
@@ -265,6 +268,23 @@ class StmtMixin(object):
       ast.copy_location(loop, node)
       ast.fix_missing_locations(loop)
       loop._pyvc_spec_node = lc
+      for o in self.ex_For(loop, st, cx):
+        yield o
+      return
+    c = node.value
+    if (isinstance(c, ast.Call) and isinstance(c.func, ast.Attribute) and c.func.attr == 'update' and len(c.args) == 1 and not c.keywords
+        and isinstance(c.args[0], ast.GeneratorExp) and len(c.args[0].generators) == 1 and not c.args[0].generators[0].is_async
+        and isinstance(c.args[0].elt, ast.Tuple) and len(c.args[0].elt.elts) == 2):
+      # d.update((k, v) for x in xs): the loop  for x in xs: d[k] = v
+      ge = c.args[0]
+      g = ge.generators[0]
+      body = [ast.Assign(targets=[ast.Subscript(value=c.func.value, slice=ge.elt.elts[0], ctx=ast.Store())], value=ge.elt.elts[1], type_comment=None)]
+      for cond in reversed(g.ifs):
+        body = [ast.If(test=cond, body=body, orelse=[])]
+      loop = ast.For(target=g.target, iter=g.iter, body=body, orelse=[], type_comment=None)
+      ast.copy_location(loop, node)
+      ast.fix_missing_locations(loop)
+      loop._pyvc_spec_node = ge
       for o in self.ex_For(loop, st, cx):
         yield o
       return
@@ -886,6 +906,32 @@ class StmtMixin(object):
         s.frames[frame_id][more] = V(BOOL, z3.Bool(fresh_name('more')))
       def pre(s):
         for o in self.assign_to(node.target, self.fresh_val(s, ANY, 'elem'), s, cx):
+          yield o
+      for o in self.run_loop(node, st, cx, ordn, ls2, test, node.body, step, pre):
+        yield o
+      return
+    if isinstance(seq, V) and seq.ty.k == 'set' and not enum:
+      # for x in <set>: any number of iterations, each over some element of the set as it was when the loop started
+      # (iteration order is unspecified); CPython raises RuntimeError if the set changes size while iterated
+      frame_id = cx.chain[0]
+      more = '$more%d' % ordn
+      st.frames[frame_id][more] = V(BOOL, z3.Bool(fresh_name('more')))
+      ls2 = dict(ls)
+      ls2['havoc_locals'] = list(ls.get('havoc_locals', ())) + [more]
+      mem0 = self.set_mem_arr(st, seq)
+      card0 = self.set_card(st, seq)
+      ety = seq.ty.args[0]
+      def test(s):
+        return s.frames[frame_id][more].t
+      def step(s):
+        self.oblige(s, 'no-RuntimeError[%s.loop%d]' % (cx.qual, ordn), self.set_card(s, seq) == card0, node,
+                    'the set does not change size while it is iterated')
+        s.frames[frame_id][more] = V(BOOL, z3.Bool(fresh_name('more')))
+      def pre(s):
+        e = self.fresh_val(s, ety, 'elem')
+        s.assume(z3.Select(mem0, coerce(e, ety)))
+        s.assume(card0 >= 1)
+        for o in self.assign_to(node.target, e, s, cx):
           yield o
       for o in self.run_loop(node, st, cx, ordn, ls2, test, node.body, step, pre):
         yield o
